@@ -6,6 +6,32 @@ pub mod tempfile {
     use crate::shims::std::fs::{File, FileV, OpenMode, file_write_post};
     use crate::shims::std::path::{Path, PathArg};
 
+    /// tempfile::Builder: like NamedTempFile::new_in, but the file NAME contains the caller's
+    /// prefix / suffix text - so nothing is known about the last path component
+    #[verifier::external_body]
+    pub struct Builder { b: u8 }
+    impl Builder {
+        #[verifier::external_body]
+        pub fn new() -> (r: Builder) { unimplemented!() }
+        #[verifier::external_body]
+        pub fn prefix<S: ?Sized>(&mut self, p: &S) -> (r: &mut Builder) ensures *final(r) == *final(self) { unimplemented!() }
+        #[verifier::external_body]
+        pub fn suffix<S: ?Sized>(&mut self, p: &S) -> (r: &mut Builder) ensures *final(r) == *final(self) { unimplemented!() }
+        #[verifier::external_body]
+        pub fn tempfile_in<A: PathArg>(&self, dir: A, Tracked(w): Tracked<&mut World>) -> (r: io::Result<NamedTempFile>)
+            ensures
+                old(w).healthy == final(w).healthy, world_wf(*old(w)) ==> world_wf(*final(w)), hist_ext(*old(w), *final(w)),
+                r is Err ==> final(w).fs == old(w).fs && final(w).hist == old(w).hist,
+                r is Ok ==> {
+                    let p = r->Ok_0@;
+                    &&& parent_of(p) == dir.pathv() && p.comps.len() == dir.pathv().comps.len() + 1
+                    &&& !exists_at(old(w).fs, p)
+                    &&& final(w).fs == (Fs { files: old(w).fs.files.insert(p, Seq::<u8>::empty()), ..old(w).fs })
+                    &&& final(w).hist == old(w).hist.push(final(w).fs)
+                    &&& tmp_pos(r->Ok_0) == 0
+                },
+        { unimplemented!() }
+    }
     #[verifier::external_body]
     pub struct NamedTempFile { f: u8 }
     /// the path of the temporary file (fixed for the life of the handle)
